@@ -203,9 +203,9 @@ def run(prog: Program, rep: Report, tier: str) -> None:
     if prop is None:
         rep.undecided("R17.3", "is_running", "-", "anchor vanished: is_running property")
     else:
-        body = [s for s in prop.node.body if not (isinstance(s, ast.Expr) and isinstance(s.value, ast.Constant))]
-        ok = len(body) == 1 and isinstance(body[0], ast.Return) and ast.unparse(body[0].value) == "self._is_running"
-        rep.check(ok, "R17.3", "is_running reads the flag", f"{loc(prop, prop.node)} is_running", f"is_running returns `{ast.unparse(body[0]) if body else ''}`", key="R17.3|property")
+        from .c18 import property_returns_field
+        ok = property_returns_field(prog, ci, prop, "_is_running")
+        rep.check(ok, "R17.3", "is_running reads the flag", f"{loc(prop, prop.node)} is_running", "the is_running property does not return the value of self._is_running on every path", key="R17.3|property")
     # ---- R17.5 context manager
     I3, eouts, efi = B.run_bridge_method(prog, "__aenter__", fresh_instance=True)
     ewhere = f"{loc(efi, efi.node)} {efi.qualname}"
